@@ -451,7 +451,7 @@ fn dfs(
     let acts = enabled(h, &w, nlocal, last_sync, nparts);
     drop(w);
     for a in acts {
-        if trace.is_empty() {
+        if trace.len() == 1 {
             *idx += 1;
             if !first_level(*idx) {
                 continue;
